@@ -682,12 +682,41 @@ class Tracer:
         for a in n["arms"]:
             g = "%s ~ %s" % (k(sv), pat_name(self.c, a["pat"]))
             self.guards.append(("+", g, n, sv))
+            pushed = 1
             self.bind(a["pat"], sv)
+            # literal (sub)patterns are equality tests on the matched components: `(0, _) => ..` is `scrut.0 == 0`
+            for cm in self._pattern_cmps(a["pat"], sv):
+                self.guards.append(("+", k(cm), n, cm))
+                pushed += 1
             if a.get("guard"):
-                self.ev(a["guard"])
+                gv = self.ev(a["guard"])
+                if gv is not None:
+                    self.guards.append(("+", k(gv), n, gv))
+                    pushed += 1
             vals.append(self.ev(a["body"]))
-            self.guards.pop()
+            for _ in range(pushed):
+                self.guards.pop()
         return Term("<match@%d>" % self._fresh(), [v for v in vals if v is not None])
+
+    def _pattern_cmps(self, pat, v, depth=0):
+        out = []
+        if pat is None or depth > 3:
+            return out
+        kk = pat.get("k")
+        if kk == "Lit" and pat.get("v") is not None:
+            pv = as_poly(v)
+            try:
+                c = Poly.const(int(str(pat["v"]).replace("_", "")))
+            except (ValueError, TypeError):
+                return out
+            if pv is not None:
+                out.append(Cmp("==", pv, c))
+        elif kk == "Tuple" and isinstance(v, Tup) and len(pat["pats"]) == len(v.items):
+            for q, item in zip(pat["pats"], v.items):
+                out += self._pattern_cmps(q, item, depth + 1)
+        elif kk in ("Ref", "Box"):
+            out += self._pattern_cmps(pat.get("pat"), v, depth + 1)
+        return out
 
     def ev_Loop(self, n):
         src = n["src"]
